@@ -181,6 +181,10 @@ class C18(F.PropCheck):
             extra = ['X-Pad%d: %s' % (i, 'p' * 40) for i in range(tot // 50)]; tags.append('padded')
         if rng.random() < 0.3: extra = extra + ['Server: nginx', 'Connection: keep-alive', 'Date: Mon, 01 Jan 2024 00:00:00 GMT'][:rng.randrange(4)]
         hdr = header(cl, status, ctype, clname, extra, rng.randrange(3))
+        if rng.random() < 0.06:      # header of exactly 696..702 bytes (the buffer holds 699 + NUL)
+            want = rng.choice([696, 697, 698, 699, 699, 700, 701, 702]); base_len = len(header(cl, status, ctype, clname, ['X-Fill: '], 0))
+            if want > base_len:
+                hdr = header(cl, status, ctype, clname, ['X-Fill: ' + 'f' * (want - base_len)], rng.choice([0, 2])); tags.append('hdrlen:%d' % len(hdr))
         if rng.random() < 0.03: hdr = hdr[:rng.randrange(len(hdr))] + b'\x00' + hdr[rng.randrange(len(hdr)):]; tags.append('nul')
         pre.append(oracle_ev(img, omode))
         if rng.random() < 0.08:
@@ -290,9 +294,39 @@ class C18(F.PropCheck):
                 left = blen; sd = 256 * m + j
                 while left > 0:
                     k = min(left, 65535); evs.append(('SEGFILL', [k, sd], b'')); left -= k; sd += 255
-                evs.append(('DISC', [], b''))
+                if not (j == 0 and m & 1): evs.append(('DISC', [], b''))      # at-limit on odd maps: completion alone must decide
                 cases.append(F.Case('%sbig_m%d_%d' % (tier[0], m, j), evs, ['big', 'map%d' % m, ('at-limit', 'limit+1', 'crosses-slot-end')[j]]))
+        # authentic images longer than 64 KB (16-bit counters/lengths): filler body + explicit signature and footer
+        for j, n in enumerate((65535 + 528, 65536 + 528 + 1, 2 * 65536 + 4096, 70000)):
+            m = (5, 2, 6, 3)[j]; nb = n - SIGN - FOOT; parts = []; left = nb; sd = 77 + j
+            evs = [('MAP', [m], b''), ('USERBIN', [j & 1], b'')]
+            segs = []
+            while left > 0:
+                k = min(left, (65535, 30000, 65535, 1460 * 40)[j]); segs.append(('SEGFILL', [k, sd], b'')); parts.append(fill_bytes(k, sd)); left -= k; sd += 255
+            body = b''.join(parts); sig = bytes((i * 7 + j) & 255 for i in range(SIGN)); foot = magic() + bytes([2, 0]) + bytes(8)
+            evs += [('ORACLE', [2, nb, cks(body), cks(sig)], b''), ('START', [], b''), ('SEG', [], header(n))] + segs + [('SEG', [], sig + foot)]
+            if j & 1: evs.append(('DISC', [], b''))
+            cases.append(F.Case('%smid_%d' % (tier[0], j), evs, ['mid>64K', 'map%d' % m, 'valid']))
         return cases
+
+    def gen_digits(self, rng, cid):
+        """the body starts with an authentic image whose length is the announced number with a digit dropped at the front or
+        the end (what a parser that starts one character late / stops one early would take), then filler up to the announced
+        length or beyond"""
+        m = rng.choice([2, 3, 5, 6]); ub = rng.choice([0, 1]); tags = ['clen-digits', 'map%d' % m]
+        for _ in range(100):
+            n = rng.choice([rng.randrange(5290, 99999), rng.randrange(10000, 60000)]); ds = str(n)
+            short = int(rng.choice([ds[1:], ds[:-1], ds[1:], ds[2:] or '0']))
+            if SIGN + FOOT < short < n: break
+        else: n, short = 15000, 5000
+        img = make_image(rng, short)
+        rest = n - short + rng.choice([0, 0, 0, -1, 1, 100])
+        body = img + bytes(rng.getrandbits(8) for _ in range(min(max(rest, 0), 4000))) * 1
+        if len(body) < short + max(rest, 0): body += fill_bytes(min(short + max(rest, 0) - len(body), 65535), rng.randrange(65536))
+        evs = [('MAP', [m], b''), ('USERBIN', [ub], b''), oracle_ev(img, 2 if rng.random() < 0.7 else 1), ('START', [], b'')]
+        for sg in self.segmentations(rng, header(n, order=rng.randrange(3)), body): evs.append(('SEG', [], sg))
+        if rng.random() < 0.7: evs.append(('DISC', [], b''))
+        return F.Case(cid, evs, tags)
 
     def gen_cases(self, rng, n, tier):
         cases = self.gen_big(tier)
@@ -301,6 +335,7 @@ class C18(F.PropCheck):
             if r < 0.04: cases.append(self.gen_stale(rng, '%sst%d' % (tier[0], i))); continue
             if r < 0.07: cases.append(self.gen_nohalt(rng, '%snh%d' % (tier[0], i))); continue
             if r < 0.12: cases.append(self.gen_nonnum(rng, '%snn%d' % (tier[0], i))); continue
+            if r < 0.15: cases.append(self.gen_digits(rng, '%sdg%d' % (tier[0], i))); continue
             m = rng.choice([5, 5, 5, 6, 2, 2, 3, 4, rng.choice([0, 1, 7, 8, 9])]); ub = rng.choice([0, 0, 1, 1, rng.choice([2, 255])])
             pre, hdr, body, tags, img = self.gen_response(rng, m, tier)
             evs = [('MAP', [m], b''), ('USERBIN', [ub], b'')] + pre
@@ -411,10 +446,12 @@ class C18(F.PropCheck):
                 img = body[:ann]; nb = ann - SIGN - FOOT
                 ver = [ints for (k, ints, _) in outs[:i] if k == 'VERIFY']
                 if img[-FOOT:-FOOT + len(magic())] != magic(): why = 'the image does not end with the footer magic'
+                elif img[-FOOT + len(magic()):-FOOT + len(magic()) + 2] != bytes([SIGN >> 8, SIGN & 255]): why = 'the footer does not state a %d-byte signature' % SIGN
                 elif not ver: why = 'no signature verification took place'
                 else:
-                    n, sm, sl, sg, verdict = ver[-1][:5]
-                    if (n, sm) != (nb, cks(img[:nb])): why = 'the hash was computed over %d bytes (checksum %d), the image body has %d bytes (checksum %d)' % (n, sm, nb, cks(img[:nb]))
+                    n, sm, sl, sg, verdict = ver[-1][:5]; builtin = ver[-1][5] if len(ver[-1]) > 5 else 1
+                    if builtin != 1: why = 'the signature was not checked against the built-in public key and exponent'
+                    elif (n, sm) != (nb, cks(img[:nb])): why = 'the hash was computed over %d bytes (checksum %d), the image body has %d bytes (checksum %d)' % (n, sm, nb, cks(img[:nb]))
                     elif (sl, sg) != (SIGN, cks(img[nb:nb + SIGN])): why = 'the signature buffer is not the %d bytes that follow the body' % SIGN
                     elif verdict != 1: why = 'the signature did not verify'
                     else:
